@@ -189,12 +189,15 @@ type c13sParams struct {
 	// "open-expired" (tripped, timeout elapsed: the first arrival is the half-open trial and the
 	// others are turned away while it is in flight), "one-token" (rate limiter down to one token)
 	Start string
+	// Prefix (Start "reached"): events of c13Events leading to the start state
+	Prefix  []int
+	Limiter bool
 }
 
 func c13sScenario(p c13sParams, bound int) vh.SScenario {
-	return vh.SScenario{Name: fmt.Sprintf("accounting-conc-%s-%v-breaker%v-start-%s", p.Strategy, p.Modes, p.Breaker, p.Start), KeyPrefix: "C13/conc", Bound: bound, Params: p, Body: func(x *vh.Exec) {
+	return vh.SScenario{Name: fmt.Sprintf("accounting-conc-%s-%v-breaker%v-limiter%v-start-%s%v", p.Strategy, p.Modes, p.Breaker, p.Limiter, p.Start, p.Prefix), KeyPrefix: "C13/conc", Bound: bound, Params: p, Body: func(x *vh.Exec) {
 		s := x.S
-		y := newC13Sys(s, p.Strategy, p.Breaker, p.Start == "one-token")
+		y := newC13Sys(s, p.Strategy, p.Breaker, p.Start == "one-token" || p.Limiter)
 		key, what, out := "", "", ""
 		x.Check = func(v vrt.Verdict) (string, string, string, bool) {
 			if v.Kind != vrt.OK {
@@ -203,6 +206,13 @@ func c13sScenario(p c13sParams, bound int) vh.SScenario {
 			return out, key, what, true
 		}
 		prelude := 0
+		if p.Start == "reached" {
+			in := &c13Inst{s: s, y: y, p: c13Params{p.Strategy, p.Breaker, p.Limiter}}
+			for _, e := range p.Prefix {
+				in.Step(e)
+			}
+			prelude = y.issued
+		}
 		switch p.Start {
 		case "open", "open-expired":
 			for i := 0; i < 3; i++ {
@@ -280,6 +290,49 @@ func TestVerifC13S(t *testing.T) {
 	for i, sc := range scs {
 		if vh.MyShard(i) {
 			vh.RunS(r, "TestVerifC13S", sc)
+		}
+	}
+}
+
+// TestVerifC13Reach: overlapping requests started from every control state the sequential
+// search (c13Spec) reaches within a few events; the published numbers are audited at quiescence.
+func TestVerifC13Reach(t *testing.T) {
+	r := vres.Open("C13", racePart("Reach"))
+	defer func() {
+		if err := r.Close(); err != nil {
+			t.Fatal(err)
+		}
+	}()
+	if vres.ReplayPath() != "" {
+		var rp vh.SReplay
+		var p c13sParams
+		rp.Params = &p
+		if err := vres.LoadReplay(&rp); err != nil {
+			t.Fatal(err)
+		}
+		vh.ReplayS(c13sScenario(p, 0), rp.Choices)
+		return
+	}
+	cfgs := []c13Params{{"round_robin", true, true}}
+	depth, bound := 2, 2
+	pairs := [][]string{{"ok", "ok"}, {"ok", "500"}, {"500", "abort"}}
+	if vres.Thorough() {
+		cfgs = append(cfgs, c13Params{"least_connections", true, false}, c13Params{"ip_hash", false, true}, c13Params{"weighted_round_robin", true, true})
+		depth = 4
+		if vrt.RaceBuild {
+			depth = 3
+		}
+		pairs = append(pairs, []string{"ok", "abort"}, []string{"refuse", "ok"}, []string{"ok", "ok", "500"})
+	}
+	i := 0
+	for _, c := range cfgs {
+		for _, pre := range vh.ReachableH(c13Spec(c, depth)) {
+			for _, m := range pairs {
+				if vh.MyShard(i) {
+					vh.RunS(r, "TestVerifC13Reach", c13sScenario(c13sParams{Strategy: c.Strategy, Modes: m, Breaker: c.Breaker, Limiter: c.Limiter, Start: "reached", Prefix: pre}, bound))
+				}
+				i++
+			}
 		}
 	}
 }
